@@ -432,6 +432,14 @@ class Program:
                         c = norm(c)
                         if c in self.bodies:
                             cg[k].add(c)
+                # function items passed as values (`.map(u32::try_from)`): the driver resolves trait methods to impls
+                for a in t.get("args", []):
+                    if isinstance(a, dict) and a.get("k") == "const" and "fn" in a:
+                        c = norm(a.get("resolved") or a["fn"])
+                        if c in self.bodies:
+                            cg[k].add(c)
+                        else:
+                            ext[k].add(c)
             for bi, si, s_ in b.stmts_with_pos():
                 if s_["k"] == "assign" and s_["rv"]["k"] == "agg" and "closure" in s_["rv"]:
                     c = norm(s_["rv"]["closure"])
@@ -441,7 +449,7 @@ class Program:
                 if s_["k"] == "assign":
                     for op in _operands_of_rv(s_["rv"]):
                         if op.get("k") == "const" and "fn" in op:
-                            c = norm(op["fn"])
+                            c = norm(op.get("resolved") or op["fn"])
                             if c in self.bodies:
                                 cg[k].add(c)
         self._cg = cg
